@@ -217,7 +217,7 @@ func comparePayload(run *ev.Run, prop string, c *gen.Case, f string, pkg *dec.Pa
 
 func c01(run *ev.Run, tier string) {
 	n := ncases(120, 1500, tier)
-	run.Rule = "cases = generated (config YAML, materialised source tree); each is parsed, Get(format)+WithDefaults, packaged in all 5 formats, decoded by harness readers and compared entry-by-entry (kind, bytes SHA-256, stored mode field, owner, group, file mtime, link target) with a reference plan written from the documentation. Regimes by index: i%5==3 package mtime unset (source mtimes apply), i%7==5 setuid/setgid/sticky source files, i%4==1 per-format override blocks. Half of the cases are built from ONE parsed configuration (formats in a rotating order, overridden formats first), the other half from a fresh parse per format; a third of the cases have sources owned by canary numeric ids (as root) that must not appear in any package; source trees carry sub-second mtimes and NFD-spelled names; directed cases: an entry inside a tree destination listed before / after the tree, backslashes in tree names, sources behind symbolic links and linked directories, a source without permission bits, a tree at '/' (rpm). non-trivial = >=3 distinct content types and >=1 regular file whose mode is defaulted through the umask; distinct = distinct feature sets"
+	run.Rule = "cases = generated (config YAML, materialised source tree); each is parsed, Get(format)+WithDefaults, packaged in all 5 formats, decoded by harness readers and compared entry-by-entry (kind, bytes SHA-256, stored mode field, owner, group, file mtime, link target) with a reference plan written from the documentation. Regimes by index: i%5==3 package mtime unset (source mtimes apply), i%7==5 setuid/setgid/sticky source files, i%4==1 per-format override blocks. Half of the cases are built from ONE parsed configuration (formats in a rotating order, overridden formats first), the other half from a fresh parse per format; a third of the cases have sources owned by canary numeric ids (as root) that must not appear in any package; source trees carry sub-second mtimes and NFD-spelled names; directed cases: an entry inside a tree destination listed before / after the tree, backslashes in tree names, sources behind symbolic links and linked directories, a source without permission bits, a tree at '/' (rpm). non-trivial = >=3 distinct content types and >=1 regular file whose mode is defaulted through the umask; distinct = distinct feature sets; the nfpm binary with the packager named and guessed from the target extension over per-format override blocks; SOURCE_DATE_EPOCH=0; good builds after failed ones; a destination ending in a line break; a symlink with expand: true"
 	var st cmpStats
 	var mu sync.Mutex
 	perFormat := map[string]int64{}
